@@ -19,6 +19,8 @@ type Dgram struct {
 
 // PacketSock is a simulated server-side UDP socket (net.PacketConn).
 type PacketSock struct {
+	// DeadlineErrs counts reads that failed because a read deadline set on this socket had passed
+	DeadlineErrs int
 	n      *Net
 	Name   string
 	addr   *net.UDPAddr
@@ -61,6 +63,7 @@ func (p *PacketSock) ReadFrom(b []byte) (int, net.Addr, error) {
 			return 0, nil, &net.OpError{Op: "read", Net: "udp", Addr: p.addr, Err: os.ErrDeadlineExceeded}
 		}
 		if !p.rdl.IsZero() && !time.Now().Before(p.rdl) {
+			p.DeadlineErrs++
 			s.Unlock()
 			return 0, nil, &net.OpError{Op: "read", Net: "udp", Addr: p.addr, Err: os.ErrDeadlineExceeded}
 		}
@@ -230,3 +233,9 @@ func (p *PacketSock) IsClosed() bool {
 }
 
 var _ net.PacketConn = (*PacketSock)(nil)
+
+func (p *PacketSock) DeadlineErrsSnapshot() int {
+	p.n.S.Lock()
+	defer p.n.S.Unlock()
+	return p.DeadlineErrs
+}
